@@ -31,6 +31,7 @@ def shards(tier, seed):
     for i in range(4):
         out.append({"name": f"public-{i}", "kind": "public", "i": i, "n": 4, "seed": seed, "tier": tier})
     out.append({"name": "stub-pgns", "kind": "stub", "seed": seed, "tier": tier})
+    out.append({"name": "threads", "kind": "threads", "seed": seed, "tier": tier})
     return out
 
 
@@ -62,6 +63,20 @@ def check_ids(ids, acc):
 def run_shard(spec, acc):
     kind = spec["kind"]
     rng = gen.rng_for(spec["seed"], ID, spec["name"])
+    if kind == "threads":
+        # an encoder and a decoder per thread: the identifier written is the one of the message this thread is encoding
+        from .. import threadwork
+        n, wrong, errors = threadwork.encoder_round_trips(spec, acc, ID)
+        acc.count("public_header_roundtrips", n)
+        acc.count("encoded_identifiers_checked", n)
+        if errors:
+            acc.violation("encode-raised-in-concurrent-threads", f"encoders of their own in several threads: {errors[0]}", {"errors": errors[:5]})
+        if wrong:
+            t, did, fmt, what, detail = wrong[0]
+            acc.violation("encoded-identifier-mismatch" if what == "packets" else "decoded-header-mismatch",
+                          f"{fmt}: thread {t} encoding {did} with an encoder of its own while other threads encode with theirs: {what} differ ({detail})",
+                          {"kind": "threads", "fmt": fmt, "definition": did, "thread": t, "detail": repr(detail)})
+        return
     if kind == "sweep_quick":
         if not have_pair():
             acc.note("internal parse/build pair absent: sweep skipped, public path only")
